@@ -66,6 +66,9 @@ func VerifMultiFetch() {
 	case failAt >= 0:
 		vrt.Cover("entry-request-failed")
 		vrt.Assert("C10.failed-upstream-request-fails-the-fetch", err != nil)
+		// read as C11 (and C05/C06 for the transaction chain): the records of a block either all
+		// reach grading or the block fails - a record on chain is never graded as absent
+		vrt.Assert("C11.every-record-of-the-block-reaches-grading-or-the-block-fails", err != nil)
 	default:
 		vrt.Cover("all-fetched")
 		vrt.Assert("C10.fetch-without-failure-succeeds", err == nil)
